@@ -1,0 +1,15 @@
+//go:build verif
+
+package ip
+
+// Read-only accessors for the verification harness (/verif, property C36).
+// Compiled only with -tags verif; they expose the trie's node structure so
+// that intermediate (data-less) nodes can be compared with the model.
+
+func (t *CIDRTrie) VerifRoot() *CIDRNode { return t.root }
+
+func (n *CIDRNode) VerifCIDR() CIDR { return n.cidr }
+
+func (n *CIDRNode) VerifData() any { return n.data }
+
+func (n *CIDRNode) VerifChild(i int) *CIDRNode { return n.children[i] }
